@@ -1488,7 +1488,25 @@ def spec_size_estimate_arms(ctx, make_exe):
                     child = exe_.deref(st_, child)
                 k = int(child.name[-1])
                 return [(st_, _estimate(ctx, ests[k][0], ests[k][1], exe_.fresh("usize", exe_.fresh_name("child.prefix"))))]
+            # where the measured prefix comes from: a literal, or the decorator's string for this kind of block
+            m_ = re.search(r"TextDecorator>::(quote_prefix|unordered_item_prefix|header_prefix)$", c)
+            if m_:
+                return [(st_, VOpaque("String", "dec:" + m_.group(1)))]
+            if re.search(r"^<&str as (?:std::convert::)?Into<String>>::into$", c) or re.search(r"<String as From<&str>>::from$", c):
+                src = args[0]
+                while isinstance(src, VRef):
+                    src = exe_.deref(st_, src)
+                return [(st_, VOpaque("String", "lit:" + getattr(src, "name", "?")))]
+            if re.search(r"^String::as_str$", c) or re.search(r"^<String as Deref>::deref$", c):
+                src = args[0]
+                while isinstance(src, VRef):
+                    src = exe_.deref(st_, src)
+                return [(st_, VRef("val", VOpaque("str", getattr(src, "name", "?"))))]
             if re.search(r"UnicodeWidthStr>::width$", c):
+                src = args[0]
+                while isinstance(src, VRef):
+                    src = exe_.deref(st_, src)
+                st_.calls.append(("measured", [getattr(src, "name", "?")], f_.name, bb_))
                 return [(st_, pw)]
             if re.search(r"^calc_ol_prefix_size::<", c):
                 return [(st_, pw)]
@@ -1517,6 +1535,13 @@ def spec_size_estimate_arms(ctx, make_exe):
             elif kind in ("BlockQuote", "Ul", "Header", "Ol", "Dd"):
                 post(exe, s2, z3.And(size == ssum + pw.e, minw == mmax + pw.e, pre == pw.e), f.name,
                      "%s: prefix width is added to size and minimum width and recorded as prefix_size" % kind)
+                # the prefix that is measured is the one the rendering arm of this kind subtracts again: two spaces for a
+                # definition (do_render_node computes min_width - 2 there), the decorator's quote / bullet string otherwise
+                want_src = {"Dd": 'lit:const:"  "', "BlockQuote": "dec:quote_prefix", "Ul": "dec:unordered_item_prefix"}.get(kind)
+                if want_src:
+                    measured = [cl[1][0] for cl in s2.calls if cl[0] == "measured"]
+                    post(exe, s2, z3.BoolVal(measured == [want_src]), f.name,
+                         "%s: the prefix measured for the estimate is the one the block is rendered with (measured %s)" % (kind, measured))
             elif kind == "Break":
                 post(exe, s2, z3.And(size == 1, minw == 1), f.name, "Break: one column")
             else:
@@ -5391,7 +5416,7 @@ ALL = [
          bounds="two children with arbitrary estimates (< 2^30), arbitrary prefix display width (< 2^20)",
          assumptions=["children's estimates are arbitrary symbolic values (the recursion is cut)", "UnicodeWidthStr::width / calc_ol_prefix_size return an arbitrary width",
                       "the Text / Img arm (character loop) is not covered"],
-         replay=lambda fd, vals, info: {"harness": "m_link_min_width", "values": [[0]]}),
+         replay=lambda fd, vals, info: {"harness": ("m_prefix_estimate" if "prefix measured" in fd.msg else "m_link_min_width"), "values": [[0]]}),
     Spec("flush_wrapping_frags", ["C14"], spec_flush_wrapping_frags,
          functions=["SubRenderer::flush_wrapping", "SubRenderer::extend_lines", "SubRenderer::add_line"],
          bounds="one marker already waiting, one new trailing marker, the block flushes 0 or 1 text lines",
@@ -5444,7 +5469,7 @@ ALL = [
          assumptions=["TaggedLine::{insert_front,push,new} and the string conversions are observed, not executed (t4_* decide insert_front on the real code)",
                       "the pairing of lines with prefixes (zip) is std"],
          replay=lambda fd, vals, info: {"harness": "m_prefix_blank_lines", "values": [[0]]}),
-    Spec("wrap_hard_wrap", ["C02", "C04", "C03", "C01", "C14"], spec_wrap_hard_wrap,
+    Spec("wrap_hard_wrap", ["C02", "C04", "C03", "C01", "C14", "C11"], spec_wrap_hard_wrap,
          functions=["WrappedBlock::flush_word_hard_wrap", "WrappedBlock::force_flush_line"],
          bounds="word of 1-2 pieces of 1-2 characters from {a, e-acute, a wide CJK character, a combining mark}, optional fragment marker between; any block width <= 2^20, any line position",
          assumptions=["TaggedLine contracts of section 9.1; strings are sequences of symbolic characters; slicing forks over character boundaries"],
